@@ -653,27 +653,29 @@ PROPS["C40"] = dict(
     n_quick=24, n_thorough=500,
     harness_timeout=3000,
     rule="document sets of 5-60 documents (short text with a probe word / text >= 2500 chars split into chunk frames / binary; 20-50 KB binaries that cross the automatic checkpoint and grow the log; explicit uris; "
-         "timestamps with ties and out-of-order values; 4-dimensional embeddings on 0 / 30 / 50 / 80 % of the documents; 1 in 8 with default PutOptions = instant_index, auto_tag, triplets) ingested three ways in three files: "
+         "timestamps with ties and out-of-order values; 4-dimensional embeddings on 0 / 30 / 50 / 80 % of the documents, 1 in 25 with an EMPTY embedding vector; 1 in 8 with default PutOptions = instant_index, auto_tag, triplets) ingested three ways in three files: "
          "plain puts + commit; begin_batch(random skip_sync / disable_auto_checkpoint / compression_level 0,1,3,11 / wal_pre_size_bytes 0,1,65536,65537,100000,2^20,2^20+1,random) + puts + end_batch/commit in either order, "
          "one time in three with a prefix of the documents put (and half of the time committed) before begin_batch; puts with 1-5 commit_skip_indexes in between + finalize_indexes, one time in three inside begin_batch/end_batch; "
          "each followed by the battery (frame table id/uri/status/content tag/role/parent, timeline (id, ts), 10 word searches as hit-id sequences: probe word, 5 vocabulary words, 4 unique document tokens; 3 vector searches k=10) live and after close+reopen; "
-         "property oracle = any pairwise difference between the batteries of the batch / skip file and the plain file (class skip-commit-drops-embeddings iff the path used commit_skip_indexes, some document has an embedding and ONLY vector searches differ); "
+         "property oracle = ANY pairwise difference between the batteries of the batch / skip file and the plain file (no known class; a skip path whose vector searches alone differ is reported under the old tag skip-commit-drops-embeddings, now a plain violation); "
+         "one document set in four also runs the boundary history puts / commit_skip_indexes / close+reopen / [puts / commit_skip_indexes] / finalize_indexes / reopen: model comparison in full, oracle on frames / timeline / word searches only; "
          "model correspondence per op: (result, frame_count, next_frame_id), log-region size, Stats.vec_enabled + the documents search_vec / frame_embedding reach, and at every commit / finalize_indexes / reopen the timeline ids and the engine's documents (probe-word search, top_k 5000); "
          "stream presize: begin_batch{wal_pre_size_bytes} on a memory holding 1-6 committed documents: new log size and every payload_offset against ensure_wal_capacity / adjust_offsets, contents re-read live and after reopen; "
          "non-trivial = at least 5 documents and both batteries taken (hist) / the log region grew (presize); distinct by digest of the op list",
-    level_text="Unbounded theorems over a model of begin_batch / end_batch / PutManyOpts (options as state), ensure_wal_capacity, commit_from_records, commit_skip_indexes(_inner), finalize_indexes, rebuild_indexes (three Tantivy branches, build_vec_artifact, time index), Drop / open / recover_wal on top of the frame-table model of C01: "
-               "for ALL document lists, all batch options, both orders of end_batch / commit and every timing of automatic checkpoints and log growth on either path, the batch path shows exactly what plain puts + commit show (frames, content tags, timestamps, timeline, engine documents, vector documents), "
-               "generalised to every history over put / begin_batch / end_batch / commit / finalize_indexes / reopen with the markers at arbitrary positions, live and after reopen; for every history over the whole alphabet (commit_skip_indexes included) the exposed frames are the reference table, and finalize_indexes leaves exactly the timeline and engine documents of plain puts, also after reopen; "
-               "the vector half of commit_skip_indexes + finalize_indexes is refuted (vm_compute witness: one embedded put, skip commit, finalize: empty index, live and after reopen) and proved outside the class 'history uses commit_skip_indexes and has an embedded put'; ensure_wal_capacity and the data shift are characterised. Model tied to the code by the three-way ingestion of random document sets on real memories.",
-    level_note="Vector-search half REFUTED for commit_skip_indexes + finalize_indexes, recorded as known finding skip-commit-drops-embeddings (F-C40-1); proved outside it. Partial: index CONTENTS are compared as document sets (Tantivy's ranking / BM25, VecIndex::search ranking are not modelled: the property oracle compares the real hit sequences pairwise instead); "
+    level_text="Unbounded theorems over a model of begin_batch / end_batch / PutManyOpts (options as state), ensure_wal_capacity, commit_from_records (= recover_wal, incl. the replay enabling of 8099cac), commit_skip_indexes(_inner) as repaired by ed861c9, finalize_indexes, rebuild_indexes (three Tantivy branches, build_vec_artifact, time index), Drop / open on top of the frame-table model of C01: "
+               "for ALL document lists, all batch options, all segmentations, both orders of end_batch / commit and every timing of automatic checkpoints and log growth on each path, begin_batch..end_batch + commit AND puts / commit_skip_indexes* / finalize_indexes show exactly what plain puts + commit show -- frames, content tags, timestamps, timeline, engine documents and vector documents -- live and after reopen (C40_bulk_equals_plain, _reopened), "
+               "as instances of one theorem over every history of put / begin_batch / end_batch / commit / commit_skip_indexes / finalize_indexes / reopen that does not reopen between a commit_skip_indexes and the following finalize_indexes; inside that window the in-memory vector index is proved complete; for every history whatsoever the exposed frames are the reference table and finalize_indexes restores timeline and engine documents. "
+               "The boundary is a theorem too: close (or crash) + reopen inside the window loses the embeddings of the batch (vm_compute witness), which is why the window hypothesis is necessary. No hypothesis on documents (an empty embedding vector is no embedding, 564c799). Model tied to the code by the three-way ingestion of random document sets on real memories plus the boundary histories.",
+    level_note="No known finding (F-C40-1 fixed by ed861c9; the old behaviour survives as the historical lemma C40_skip_commit_unfixed_dropped_embeddings). Boundary stated, not flagged: between commit_skip_indexes and finalize_indexes the batch's embeddings exist in memory only; the property's paths never reopen there. "
+               "Partial: index CONTENTS are compared as document sets (Tantivy's ranking / BM25, VecIndex::search ranking are not modelled: the property oracle compares the real hit sequences pairwise instead); "
                "per-frame text flags, chunk counts, automatic-checkpoint timing, lex-record counts and log growth are oracle inputs observed on the implementation and universally quantified in the theorems; content = tag of the canonical (decoded) payload, so compression_level is invisible by the zstd round-trip oracle; skip_sync only moves the model's unsynced counter (durability belongs to C03); "
                "payload offsets are modelled for the pre-size shift only (stream presize), not through commits. Trusted: Coq kernel + vm_compute; hand-written model (tied by correspondence); the frame-table model and proofs of C01.",
     trusted_base=["oracle inputs of each op (automatic checkpoint happened + its lex records, log region grew, number of chunk frames, lex records appended by commit / finalize_indexes, probe-word flags of the frames) are read from the implementation through the public API and cfg(memvid_verif) hooks wal_stats / data_region",
                   "the engine's document set is observed through a probe-word search (top_k 5000, sketch filter off); the vector index through search_vec(k = 10^6) + frame_embedding",
                   "content identity = BLAKE3 of the canonical payload mapped to tags by the harness"],
-    assumptions=["an embedding, when given, has at least one component (doc_ok, as C14's emb_ok)", "documents only: no update / delete inside the compared paths (those are C01 / C08 / C14)", "no I/O errors",
-                 "known finding outside which the vector theorem holds: the history uses commit_skip_indexes and has a put with an embedding",
-                 "observation (not flagged by this check, reproduced with MV_C40_PROBE=1): ensure_wal_capacity does not add delta to cached_payload_end (grow_wal_region does since fix 63cb5ab); begin_batch{wal_pre_size_bytes} on a non-empty memory followed by a rebuild with no payload insert (finalize_indexes, a delete-only commit) moves data_end back inside the log region and the next put's payload is written there ('payload overlaps wal region'); any put + commit in between heals it, which is why the three paths of the property are not affected"],
+    assumptions=["documents only: no update / delete inside the compared paths (those are C01 / C08 / C14)", "no I/O errors",
+                 "window hypothesis of the general theorem: no close + reopen between commit_skip_indexes and the following finalize_indexes (necessary: C40_reopen_inside_window_loses_embeddings); the three paths of the property satisfy it by construction",
+                 "ensure_wal_capacity keeps cached_payload_end in step since 77fcf68 (found with this check's probe: a rebuild without payload insert right after begin_batch{wal_pre_size_bytes} on a non-empty memory used to move data_end back into the log region)"],
     allowed_axioms=[],
 )
 
@@ -1112,7 +1114,7 @@ PROPS["C21"] = dict(
                "(HealHeaderPointer only moves the pointer forward: modelled; the old witness is a regression Example that heals, the refutation is kept about doctor_unfixed; the remaining `<` branch is proved never to fire on a listed file). Boundaries stated: unreadable log -> pending records dropped; older intact commit inside the file -> older table restored; pointer and footer both lost -> Failed. "
                "Tied to the code by doctor runs on real damaged files compared field by field with the model.",
     level_note="Partial (coarse model): frame content is a tag, index contents are states (none / ok / damaged); what replay, vacuum and rebuild_indexes do to the rows is taken from C01 / C42 (rows = committed + pending applied; vacuum keeps status and content) "
-               "and checked here only end to end on real files. Embeddings are not part of a frame: a forced or damage-triggered vector rebuild empties the vector index (F-C14-1, owned by C14; modelled as vector count 0 and observed). "
+               "and checked here only end to end on real files. Embeddings are not part of a frame; since fix 83a83e8 (F-C14-1) a vector rebuild re-encodes the entries of the index it loads, so the count of embeddings of active frames is unchanged by doctor on an index that decodes (modelled, proved, compared); an index whose bytes are damaged is the only copy: it comes back holding the pending records' embeddings only (0 on a closed file) -- modelled and compared, tagged vectors-lost(damaged-index). "
                "A zeroed Tantivy segment is invisible to probe, open and verify (doctor reports Clean; detection is C20's). Known finding F-C21-2 (F-C21-1 fixed by f76b325). Trusted: Coq kernel + vm_compute; hand-written model (tied by correspondence); "
                "the abstract description of each damaged file is derived from the damage applied, not re-measured; harness.",
     trusted_base=["replay of pending records = apply to the committed rows (C01's theorem); vacuum preserves status and content of every row (C42's theorem); both are re-observed on every case through the frame table read back",
@@ -1120,7 +1122,7 @@ PROPS["C21"] = dict(
                   "a header whose own magic/version is damaged, I/O errors, lock contention, the legacy lexical index and the parallel-segments vector catalog are not modelled"],
     assumptions=["wf: TOC body decodes, no older intact commit inside the file (counted by the harness: none produced so far), log readable, pointer and footer not both lost",
                  "second run 'Clean' is read as: with default options (a forcing option makes the plan non-empty by construction: Healed)",
-                 "loss of embeddings on a vector rebuild is C14's finding F-C14-1, not an altered frame"],
+                 "vector count input = embeddings of active frames once the readable pending records are applied, a damaged index contributing none (derived by the harness from the undamaged reference copy / the pending puts it made); losing the embeddings of a damaged vector index is not counted as an altered frame"],
     allowed_axioms=[],
 )
 
@@ -1203,7 +1205,7 @@ PROPS["C09"] = dict(
 )
 
 # Temporarily held while the models are being updated to repaired /repo code (2026-09-22):
-for _pid in ("C13", "C14", "C40", "C21", "C28"):
+for _pid in ("C13", "C28"):
     PROPS[_pid]["hold"] = True
 
 PROPS["C07"] = dict(
